@@ -71,7 +71,10 @@ def _structure(rng, a, k):
         out[h:2 * h] = -out[:h]
         return out.reshape(shape)
     out = a.copy().reshape(-1)
-    tiny = 1e-40 if a.dtype in (np.float32, np.complex64) else 5e-310
+    # (double: genuine subnormals; single: tiny normal magnitudes with head-room for products
+    # with O(1) factors - float32 subnormals carry a few bits only, so no identity can be
+    # checked on them to single precision)
+    tiny = 1e-30 if a.dtype in (np.float32, np.complex64) else 5e-310
     m = rng.random(n) < 0.3
     out[m] = tiny
     return out.reshape(shape)
